@@ -592,6 +592,7 @@ class tcp (packet_base):
     while i < self.hdr_len:
       # Special case single-byte options
       if arr[i] == tcp_opt.EOL:
+        self.options.append(tcp_opt(tcp_opt.EOL,None))
         break
       if arr[i] == tcp_opt.NOP:
         self.options.append(tcp_opt(tcp_opt.NOP,None))
